@@ -180,34 +180,34 @@ def block(draw, depth, nesting, budget):
     n = draw(st.integers(0, budget))
     for _ in range(n):
         k = draw(st.integers(0, 99))
-        if k < 26:
+        if k < 23:
             items.append(draw(st.one_of(small_num, small_num, num_item, push_item)))
             depth += 1
         elif k < 38:
             # an opcode drawn uniformly from the whole defined set, with enough small operands in front of it to be executable
             op = draw(st.sampled_from(DEFINED_OPS))
-            for _j in range(max(0, NEED.get(op, 0) - (depth if draw(st.integers(0, 3)) else 0))):
+            for _j in range(max(0, NEED.get(op, 0) - (depth if draw(st.booleans()) else 0))):
                 items.append(draw(small_num))
                 depth += 1
             items.append(("op", op))
             depth = max(0, depth - max(0, NEED.get(op, 0) - 1))
-        elif k < 72:
+        elif k < 66:
             op = draw(st.sampled_from(BY_NEED[min(depth, 6)]))
             items.append(("op", op))
             depth = max(0, depth + {0: 1 if op == 0x74 else 0, 1: 0, 2: -1, 3: -2, 4: 0, 6: 0}.get(NEED[op], 0))
             if op in (0x6e, 0x78, 0x7d, 0x76, 0x73):
                 depth += 1
-        elif k < 75:
+        elif k < 69:
             items.append(("op", draw(any_op)))
-        elif k < 78:
+        elif k < 72:
             items.append(("op", draw(st.sampled_from(ODD_OPS))))
-        elif k < 80:
+        elif k < 74:
             # disabled opcodes fail even when not executed: usually hide them in a dead branch to prove exactly that
             dis = ("op", draw(st.sampled_from(DISABLED_OPS)))
             items.append(dis if draw(st.booleans()) else ("if", False, [dis], None, True))
             if items[-1][0] == "if":
                 items.insert(-1, ("num", 0))
-        elif k < 90 and nesting < 3:
+        elif k < 84 and nesting < 3:
             # conditional: push the condition (usually), then IF/NOTIF .. [ELSE ..] ENDIF
             if draw(st.integers(0, 9)) < 8:
                 items.append(draw(st.sampled_from([("num", 0), ("num", 1), ("push", b"\x01", "direct"), ("push", b"\x02", "direct"), ("push", b"\x80", "direct"),
@@ -216,18 +216,27 @@ def block(draw, depth, nesting, budget):
             has_else = draw(st.booleans())
             b = draw(block(depth, nesting + 1, 3))[0] if has_else else None
             items.append(("if", draw(st.booleans()), a, b, draw(st.integers(0, 19)) != 0))
-        elif k < 93:
+        elif k < 88:
             # PICK / ROLL around the stack depth
             delta = draw(st.integers(-1, 2))
             items += [("op", 0x74), ("num", delta), ("op", 0x94), ("op", draw(st.sampled_from([0x79, 0x7a])))]
-        elif k < 96:
+        elif k < 93:
             items += draw(multisig_shape())
             depth += 1
-        elif k < 98:
+        elif k < 95:
             cnt = draw(st.sampled_from([2, 3, 5, 50, 198, 199, 200, 201, 202]))
             items.append(("rep", [draw(st.sampled_from([("op", 0x61), ("op", 0x76), ("num", 1), ("op", 0x8b), ("op", 0x82), ("op", 0x75)]))], cnt))
+        elif k < 97:
+            # the opcode budget counts the keys of CHECKMULTISIG: filler opcodes so that  filler + 1 + nkeys = 201 + d
+            nkeys = draw(st.sampled_from([1, 3, 20, 20]))
+            d = draw(st.sampled_from([-1, 0, 0, 1, 1]))
+            items.append(("rep", [("op", 0x61)], 200 - nkeys + d))
+            items += [("num", 0), ("num", 0)] + [("push", GARBAGE_KEYS[2], "direct")] * nkeys + [("num", nkeys), ("op", 0xae)]
+            depth += 1
         else:
-            items += [draw(num_item), draw(num_item), draw(num_item), ("op", 0xa5)]
+            # x lo hi WITHIN with the bounds at distance -1/0/+1 from x
+            x = draw(st.sampled_from(BOUNDARY_INTS[:16]))
+            items += [("num", x), ("num", x + draw(st.integers(-1, 1))), ("num", x + draw(st.integers(-1, 1))), ("op", 0xa5)]
             depth += 1
     return items, depth
 
